@@ -7,3 +7,6 @@ func removeDB(p string) {
 		_ = os.Remove(p + suf)
 	}
 }
+
+// RemoveDB deletes a SQLite file with its WAL/SHM companions.
+func RemoveDB(p string) { removeDB(p) }
